@@ -68,6 +68,8 @@ pub struct Chooser {
     pub rng: Rng,
     pub policy: Policy,
     pub record: Vec<String>,
+    /// after the explicit list is exhausted take the first enabled option (replays, minimised traces)
+    pub first_after_explicit: bool,
     last_actor: Option<String>,
     prio: BTreeMap<String, u64>,
     change_points: Vec<usize>,
@@ -93,6 +95,7 @@ impl Chooser {
             rng,
             policy,
             record: Vec::new(),
+            first_after_explicit: false,
             last_actor: None,
             prio: BTreeMap::new(),
             change_points,
@@ -107,7 +110,7 @@ impl Chooser {
             let want = self.explicit[self.pos].clone();
             self.pos += 1;
             labels.iter().position(|l| *l == want).unwrap_or(0)
-        } else if !self.explicit.is_empty() && self.policy_is_replay() {
+        } else if self.first_after_explicit {
             0
         } else {
             self.by_policy(labels)
@@ -115,10 +118,6 @@ impl Chooser {
         self.last_actor = Some(actor_of(&labels[idx]).to_string());
         self.record.push(labels[idx].clone());
         idx
-    }
-
-    fn policy_is_replay(&self) -> bool {
-        false
     }
 
     fn by_policy(&mut self, labels: &[String]) -> usize {
@@ -295,6 +294,14 @@ impl World {
                 let _ = std::fs::remove_dir_all(p);
             }
         });
+        Ok(())
+    }
+
+    /// End the run (all hooks become pass-through, parked actors run free) and close the store.
+    pub fn close_store_after_end(&mut self, store: Store) -> R<()> {
+        self.ctrl.end_run();
+        store.verif_shutdown();
+        std::thread::spawn(move || drop(store));
         Ok(())
     }
 
